@@ -131,7 +131,7 @@ impl Prop for C19 {
         vec!["the constants are calibrated (measured maxima about 0.7 Myers / 1.6 Patience), not derived: the check decides 'within c x of the documented O((N+M)D)'".into()]
     }
     fn stages(tier: Tier) -> Vec<Stage<SeqCase>> {
-        vec![Stage { name: "random", kind: StageKind::Random { strategy: strat, cases: tier.pick(60_000, 300_000) } }]
+        vec![Stage { name: "random", kind: StageKind::Random { strategy: strat, cases: tier.pick(200_000, 400_000) } }]
     }
     fn check(case: &SeqCase, obs: &mut Obs) -> Verdict {
         check_case(case, obs)
